@@ -169,7 +169,7 @@ fn data_matches_disk<M: MetaProbe>(data: &LayerData<M>, layers_dir: &Path, name:
         return Err(format!("metadata {md:?} but disk has {disk_md:?}"));
     }
     let abs = abs_env_of_files(&disk.env_files);
-    for q in [Sc::All, Sc::Build, Sc::Launch, Sc::Process("web".into()), Sc::Process("worker".into()), Sc::Process("zz".into())] {
+    for q in [Sc::All, Sc::Build, Sc::Launch, Sc::Process("web".into()), Sc::Process("web.worker".into()), Sc::Process("zz".into())] {
         for st in [PlainEnv::new(), [(b"A".to_vec(), b"x".to_vec())].into_iter().collect::<PlainEnv>(), [(b"PATH".to_vec(), b"/bin".to_vec()), (b"W".to_vec(), b"".to_vec())].into_iter().collect()] {
             let got = plain_of(&data.env.apply(q.real(), &real_plain(&st)));
             let mut want = ref_apply(&abs, &q, &st);
